@@ -29,7 +29,7 @@ def state_clauses(c, s):
         dict(label='mach-list-is-the-tables-mach-column', props=('C09', 'C10'),
              src=f'len({c}._TrajectoryCalc__mach_list) == len({tbl}) and forall(0, len({tbl}), lambda k: '
                  f'{c}._TrajectoryCalc__mach_list[k] == {tbl}[k].Mach)'),
-        dict(label='angles-sight-height-cant-altitude', props=('C01', 'C10'),
+        dict(label='angles-sight-height-cant-altitude', props=('C01', 'C03', 'C10'),
              src=f'{c}.look_angle == raw({s}.look_angle) and '
                  f'{c}.barrel_elevation == raw({s}.look_angle) + math.cos(raw({s}.cant_angle)) * {ang} and '
                  f'{c}.barrel_azimuth == math.sin(raw({s}.cant_angle)) * {ang} and '
@@ -50,7 +50,7 @@ def state_clauses(c, s):
 
 
 ASC = ('forall(0, len({t}), lambda i: forall(i + 1, len({t}), lambda j: {t}[i].Mach < {t}[j].Mach))')
-ALLP = ('C01', 'C05', 'C09', 'C10', 'C17', 'C18')
+ALLP = ('C01', 'C03', 'C05', 'C09', 'C10', 'C17', 'C18')
 
 contract(f'{SF}::init_once', props=ALLP,
          params=dict(calc=CALC, shot=shot_shape()),
